@@ -191,9 +191,10 @@ Lemma BendStretch_fit_roundtrip_partial q0 q1 : q1 <> 0 ->
 Proof. intros Hq. destruct (zangle_RotZ q0) as [Hc Hs]. sc q0.
   unfold BendStretch_fitX. cbn [BendStretch_X fst snd]. set (cur := zangle ROps (RotZ ROps q0)) in *. clearbody cur.
   unfold BendStretch_fitT. rewrite npi_is_PI.
-  assert (Ep : m33_mulv ROps (RotZ ROps q0) (q1, 0, 0) = (q1 * cos q0, q1 * sin q0, 0)) by (cunf; teq; ring).
-  rewrite Ep. cbv [v3_0 v3_1]. cbv [natan2 nsqrt nleb nltb ncos nsub nadd nmul nopp n0 ROps].
-  replace (q1 * cos q0 * (q1 * cos q0) + q1 * sin q0 * (q1 * sin q0)) with (Rsqr q1) by (unfold Rsqr; nsatz_or_fail).
+  match goal with |- context [m33_mulv ROps (RotZ ROps q0) ?v] =>
+    assert (Ep : m33_mulv ROps (RotZ ROps q0) v = (q1 * cos q0, q1 * sin q0, 0)) by (cunf; teq; ring); rewrite Ep; clear Ep end. cbv [v3_0 v3_1]. cbv [natan2 nsqrt nleb nltb ncos nsub nadd nmul nopp n0 ROps].
+  replace (q1 * cos q0 * (q1 * cos q0) + q1 * sin q0 * (q1 * sin q0)) with (Rsqr q1)
+    by (unfold Rsqr; transitivity (q1 * q1 * (sin q0 * sin q0 + cos q0 * cos q0)); [ rewrite H; ring | ring ]).
   rewrite sqrt_Rsqr_abs.
   destruct (Rlt_dec 0 q1) as [Hp|Hp].
   - (* positive stretch: the fitted angle has the cosine and sine of q0 *)
@@ -201,7 +202,7 @@ Proof. intros Hq. destruct (zangle_RotZ q0) as [Hc Hs]. sc q0.
     set (a := Ratan2 (sin q0) (cos q0)) in *. clearbody a.
     assert (Hcos : cos (a - cur) = 1) by (rewrite cos_minus, Ca, Sa, Hc, Hs; lra).
     rewrite Hcos. unfold Rleb. destruct (Rle_dec 0 1); [|lra]. rewrite Rabs_right by lra.
-    cbv [BendStretch_X RotZ Rz ncos nsin ROps]. rewrite Ca, Sa. reflexivity.
+    cunf. rewrite Ca, Sa. teq; ring.
   - (* negative stretch: atan2 gives the opposite direction, the fit turns it back by pi and negates d *)
     assert (Hn : 0 < - q1) by lra.
     replace (q1 * sin q0) with ((- q1) * (- sin q0)) by ring. replace (q1 * cos q0) with ((- q1) * (- cos q0)) by ring.
@@ -210,9 +211,8 @@ Proof. intros Hq. destruct (zangle_RotZ q0) as [Hc Hs]. sc q0.
     assert (Hcos : cos (a - cur) = -1) by (rewrite cos_minus, Ca, Sa, Hc, Hs; lra).
     rewrite Hcos. unfold Rleb. destruct (Rle_dec 0 (-1)); [lra|]. rewrite Rabs_left by lra. rewrite Ropp_involutive.
     unfold Rltb. destruct (Rlt_dec 0 a).
-    + cbv [BendStretch_X RotZ Rz ncos nsin ROps]. rewrite cos_minus, sin_minus, cos_PI, sin_PI, Ca, Sa.
-      replace (- cos q0 * -1 + - sin q0 * 0) with (cos q0) by ring. replace (- sin q0 * -1 - - cos q0 * 0) with (sin q0) by ring. reflexivity.
-    + cbv [BendStretch_X RotZ Rz ncos nsin ROps]. rewrite neg_cos, neg_sin, Ca, Sa, !Ropp_involutive. reflexivity.
+    + cunf. rewrite cos_minus, sin_minus, cos_PI, sin_PI, Ca, Sa. teq; ring.
+    + cunf. rewrite neg_cos, neg_sin, Ca, Sa. teq; ring.
 Qed.
 
 (** ** regression lemmas: the fitters as they were BEFORE the fixes 7c1ce7f5 / c1dcbf40 did not have these properties
